@@ -1,4 +1,6 @@
 import QipVerif.Lemmas.SimPure
+import QipVerif.Lemmas.SimShare
+import QipVerif.Lemmas.GridStep
 /-!
 # C16 — queries, transformations and simulations are pure and repeatable
 
@@ -14,6 +16,18 @@ namespace QipVerif.C16
 open QipVerif.Sim QipVerif.Heap
 
 variable {Q P : Type}
+
+def world0 (lists : List (List Int)) : World Exact.QS Exact.Prob :=
+  { heap := ⟨lists⟩, sim := none, rng := [], log := [], comp := defaultCompiler,
+    proc := { pulses := none, phase := 0 } }
+
+def cfgCurrent : Cfg :=
+  { copyCbits := false, checkCcv := false, resetPhase := false, pureGetter := false, dmRefuse := false,
+    copyRev := false, copyChain := false, noiseLocal := false }
+def cfgFixed : Cfg :=
+  { copyCbits := true, checkCcv := true, resetPhase := true, pureGetter := true, dmRefuse := true,
+    copyRev := true, copyChain := true, noiseLocal := true }
+
 
 /-- **args_unchanged.** After any history of public calls (simulator runs with any arguments, manual stepping,
 state reads, circuit queries, compiler and processor calls), every list that existed before the history — the
@@ -212,18 +226,92 @@ theorem fresh_equivalent_load (cfg : Cfg) (hreset : cfg.resetPhase = true) (phas
 theorem query_pure [One P] [Mul P] (B : Backend Q P) (cfg : Cfg) (mode : Mode) (c : Circuit) (phases : List Int)
     (w : World Q P) : (exec B cfg mode c phases w .query).1 = w := rfl
 
+/-! ## Results of transformations: what is shared with the argument (gate objects and their lists as cells) -/
+
+/-- **transform_result_independent.** A transformation that ends with the deep copy of its result's gates
+(`resolve_gates`, `adjacent_gates`; `reverse_circuit` with fix C16-3; `to_chain_structure` with fix C16-4 — whatever
+it emits: the argument's gate objects themselves, new gates built from the argument's targets/controls lists, or new
+gates) leaves every existing circuit's value unchanged, returns only gate objects and lists created by the call, and
+no in-place change made through the result — of a list or of a gate object — changes any circuit that existed
+before.  So the aliasing clause holds for these results too. -/
+theorem transform_result_independent (w : OWorld) (arg : Circ) (plan : List Item) (old : Circ) (hwf : WFCirc w old) :
+    circVal (transform true w arg plan).1 old = circVal w old ∧
+    (∀ r ∈ (transform true w arg plan).2, NewGate w (transform true w arg plan).1 r) ∧
+    (∀ m : Mut, m.touches (transform true w arg plan).1 (transform true w arg plan).2 = true →
+      circVal (mutate (transform true w arg plan).1 m) old = circVal w old) :=
+  transform_copy_independent w arg plan old hwf
+
+/-- one `CNOT`-like gate object with targets `[2]` and controls `[0]` -/
+def oworld1 : OWorld := { lists := ⟨[[2], [0]]⟩, gates := [⟨1, 0, some 1⟩] }
+
+/-- **Counter-example (unrepaired `reverse_circuit` shares its gates).** The reversed circuit of `[g]` is `[g]` —
+the same object: changing the targets list through the result changes the caller's circuit; with fix C16-3 the
+result is a new object with new lists and the caller's circuit keeps its value. -/
+theorem C16_counterexample_reverse_shares :
+    (reverseCircuit cfgCurrent oworld1 [0]).2 = [0] ∧
+    circVal (mutate (reverseCircuit cfgCurrent oworld1 [0]).1 (.setList 0 [7])) [0] ≠ circVal oworld1 [0] ∧
+    (reverseCircuit cfgFixed oworld1 [0]).2 = [1] ∧
+    circVal (mutate (reverseCircuit cfgFixed oworld1 [0]).1 (.setList 2 [7])) [0] = circVal oworld1 [0] := by
+  refine ⟨by decide, by decide, by decide, by decide⟩
+
+/-- **Counter-example (unrepaired `to_chain_structure` shares lists).** A gate re-emitted as
+`add_gate(name, gate.targets, gate.controls)` is a new object holding the SAME lists. -/
+theorem C16_counterexample_chain_shares_lists :
+    (toChain cfgCurrent oworld1 [0] [.relist 0 1]).2 = [1] ∧
+    circVal (mutate (toChain cfgCurrent oworld1 [0] [.relist 0 1]).1 (.setList 0 [7])) [0] ≠ circVal oworld1 [0] ∧
+    (Mut.setList 0 [7]).touches (toChain cfgCurrent oworld1 [0] [.relist 0 1]).1
+      (toChain cfgCurrent oworld1 [0] [.relist 0 1]).2 = true := by
+  decide
+
+/-! ## Noise objects -/
+
+/-- **noise_unchanged / noise_fresh_equivalent.** With fix C16-5 producing the noisy dynamics never changes the noise
+object, so after any number of uses (on systems of any sizes) it answers exactly like the object as constructed. -/
+theorem noise_fresh_equivalent (cfg : Cfg) (h : cfg.noiseLocal = true) (o : RelaxObj) (uses : List Nat) (N : Nat) :
+    relaxUses cfg o uses = o ∧ (relaxUse cfg (relaxUses cfg o uses) N).2 = (relaxUse cfg o N).2 ∧
+    ∀ d : DecoObj, (decoUse cfg d).1 = d := by
+  refine ⟨relaxUses_local cfg h uses o, by rw [relaxUses_local cfg h uses o], fun d => decoUse_local cfg h d⟩
+
+/-- **Counter-example (unrepaired noise object).** `RelaxationNoise(t1=1, t2=1)` used for 2 qubits has
+`t1 = [1, 1]`, and is then refused (`ValueError`) for 3 qubits, which the object as constructed accepts. -/
+theorem C16_counterexample_noise_rewrites :
+    (relaxUse cfgCurrent ⟨.scalar 1, .scalar 1⟩ 2).1 = ⟨.list [some 1, some 1], .list [some 1, some 1]⟩ ∧
+    (relaxUse cfgCurrent (relaxUse cfgCurrent ⟨.scalar 1, .scalar 1⟩ 2).1 3).2 = .error .value ∧
+    (relaxUse cfgCurrent ⟨.scalar 1, .scalar 1⟩ 3).2 = .ok ([some 1, some 1, some 1], [some 1, some 1, some 1]) ∧
+    (relaxUse cfgFixed (relaxUse cfgFixed ⟨.scalar 1, .scalar 1⟩ 2).1 3).2 =
+      .ok ([some 1, some 1, some 1], [some 1, some 1, some 1]) := by
+  decide
+
+/-! ## Pulses as functions of time -/
+
+/-- **pulse_padding_same_function.** `get_qobjevo` / `_fill_coeff` replace a step-function coefficient array of
+length `len(tlist) - 1` by `coeff ++ [0]` (`Grid.padCoeff`, the model of C14) — in the stored pulse, too.  The padded
+pulse is the same function of time: for EVERY time `t` the step function (`Grid.stepAt`: value of the slot containing
+`t`, `0` outside) is unchanged; and padding again changes nothing. -/
+theorem pulse_padding_same_function (tl cs : List Rat) (t : Rat) :
+    QipVerif.Grid.stepAt tl (QipVerif.Grid.padCoeff tl cs) t = QipVerif.Grid.stepAt tl cs t ∧
+    QipVerif.Grid.padCoeff tl (QipVerif.Grid.padCoeff tl cs) = QipVerif.Grid.padCoeff tl cs := by
+  constructor
+  · unfold QipVerif.Grid.padCoeff
+    by_cases h : (cs.length : Int) = (tl.length : Int) - 1
+    · rw [if_pos h]; exact QipVerif.Grid.stepAt_append tl cs [0] t (by omega)
+    · rw [if_neg h]
+  · by_cases h : (cs.length : Int) = (tl.length : Int) - 1
+    · have h1 : QipVerif.Grid.padCoeff tl cs = cs ++ [0] := by unfold QipVerif.Grid.padCoeff; rw [if_pos h]
+      rw [h1]
+      unfold QipVerif.Grid.padCoeff
+      have h2 : ¬ (((cs ++ [0]).length : Nat) : Int) = (tl.length : Int) - 1 := by
+        rw [List.length_append]; simp only [List.length_cons, List.length_nil]; omega
+      rw [if_neg h2]
+    · have h1 : QipVerif.Grid.padCoeff tl cs = cs := by unfold QipVerif.Grid.padCoeff; rw [if_neg h]
+      rw [h1, h1]
+
+-- non-vacuity: a two-slot pulse; the padded array has one more entry and the same values at sample times
+example : QipVerif.Grid.padCoeff [0, 1, 2] [3, 5] = [3, 5, 0] ∧
+    QipVerif.Grid.stepAt [0, 1, 2] [3, 5, 0] (3/2) = 5 ∧ QipVerif.Grid.stepAt [0, 1, 2] [3, 5] (3/2) = 5 := by
+  decide +kernel
+
 /-! ## Counter-examples on the unrepaired code -/
-
-def world0 (lists : List (List Int)) : World Exact.QS Exact.Prob :=
-  { heap := ⟨lists⟩, sim := none, rng := [], log := [], comp := defaultCompiler,
-    proc := { pulses := none, phase := 0 } }
-
-def cfgCurrent : Cfg :=
-  { copyCbits := false, checkCcv := false, resetPhase := false, pureGetter := false, dmRefuse := false,
-    copyRev := false, copyChain := false, noiseLocal := false }
-def cfgFixed : Cfg :=
-  { copyCbits := true, checkCcv := true, resetPhase := true, pureGetter := true, dmRefuse := true,
-    copyRev := true, copyChain := true, noiseLocal := true }
 
 /-- `SNOT 0; measure 0 → c0` -/
 def circHM : Circuit := { nq := 1, ncb := 1, ops := [.gate ⟨4, [0], none, 0⟩, .meas 0 (some 0)] }
